@@ -1,5 +1,5 @@
-//@@ unit props=C15,C06
-// Unit shared: xlsx shared-formula reference rewriting (src/xlsx/mod.rs: offset_cell_name, replace_cell_names, coordinate_to_name), verbatim text.
+//@@ unit props=C15,C06 rlimit=150
+// Unit shared: xlsx shared-formula reference rewriting (src/xlsx/mod.rs: offset_cell_name, offset_cell_reference, replace_cell_names, coordinate_to_name), verbatim text.
 #![feature(allocator_api)]
 #![allow(unused_imports, dead_code, unused_variables, unused_mut, unused_assignments)]
 use vstd::prelude::*;
@@ -483,10 +483,10 @@ proof fn lemma_split_unique(cn: Seq<u8>, x: int, y: int)
 
 proof fn witness_offset_cell_reference() { assert(offset_small((-2i64, 5i64))); }
 
-// ---- a call of a function whose name has the shape LETTERS DIGITS LETTERS, e.g. DEC2BIN(): "function names ... are reproduced unchanged"
-/// sb = L1 (a upper-case letters) ++ D (b digits) ++ L2 (c upper-case letters) ++ "()"
+// ---- a call of a function whose name has the shape LETTERS DIGITS [LETTERS], e.g. DEC2BIN(), LOG10(): "function names ... are reproduced unchanged"
+/// sb = L1 (a upper-case letters) ++ D (b digits) ++ L2 (c upper-case letters, possibly none) ++ "()"
 pub open spec fn call_shape(sb: Seq<u8>, a: int, b: int, c: int) -> bool {
-    1 <= a <= 6 && 1 <= b <= 9 && 1 <= c <= 6 && sb.len() == a + b + c + 2
+    1 <= a <= 6 && 1 <= b <= 9 && 0 <= c <= 6 && sb.len() == a + b + c + 2
     && all_upper(sb.subrange(0, a)) && all_digits(sb.subrange(a, a + b)) && all_upper(sb.subrange(a + b, a + b + c))
     && sb[a + b + c] == 0x28 && sb[a + b + c + 1] == 0x29
 }
@@ -528,7 +528,6 @@ pub mod ocr { use super::*;
 //@@ body
     let ghost nm = name@;
     let ghost sb = lowb(name@);
-    let ghost offset0 = offset;
 //@@ loop 0
         invariant
             nm == name@, col_start <= col_end <= name.len(),
@@ -550,7 +549,7 @@ pub mod ocr { use super::*;
 //@@ before /let cell_name = offset_cell_name/
     proof {
         assert(a1@ =~= nm.subrange(col_start as int, col_end as int) + nm.subrange(row_start as int, nm.len() as int));
-        assert(offset_small(offset));
+        assert(offset_small(shift));
         if all_ascii(nm) {
             assert forall|i: int| 0 <= i < a1@.len() implies is_ascii_c(#[trigger] a1@[i]) by {
                 if i < col_end - col_start { assert(is_ascii_c(nm[col_start + i])); } else { assert(is_ascii_c(nm[row_start + (i - (col_end - col_start))])); }
@@ -562,9 +561,9 @@ pub mod ocr { use super::*;
             assert(a1_small(lowb(a1@), 0));
         }
         assert forall|p: int, nl: int, m: int, nd: int| all_ascii(nm) && #[trigger] single_ref(sb, p, nl, m, nd)
-            && single_in_sheet(sb, p, nl, m, offset0.0 as int, offset0.1 as int) implies
+            && single_in_sheet(sb, p, nl, m, offset.0 as int, offset.1 as int) implies
             plain_ref(a1@, nl) && ref_row(a1@, nl) == single_row(sb, p, nl, m) && ref_col(a1@, nl) == single_col(sb, p, nl)
-            && 0 <= ref_row(a1@, nl) + offset.0 <= 0xFFFF_FFFF && 0 <= ref_col(a1@, nl) + offset.1 < 16384 by {
+            && 0 <= ref_row(a1@, nl) + shift.0 <= 0xFFFF_FFFF && 0 <= ref_col(a1@, nl) + shift.1 < 16384 by {
             lemma_single_bounds(sb, p, nl, m, nd);
             lemma_single_plain(nm, p, nl, m, nd, a1@);
             lemma_a1_small_range(lowb(a1@), nl);
@@ -614,10 +613,10 @@ pub mod ocr { use super::*;
             lemma_concat_ascii(first, second);
         }
         assert forall|p: int, nl: int, m: int, nd: int| all_ascii(nm) && #[trigger] single_ref(sb, p, nl, m, nd)
-            && single_in_sheet(sb, p, nl, m, offset0.0 as int, offset0.1 as int) implies
-            exists|nlo: int| #[trigger] single_translated(lowb(res@), nlo, sb, p, nl, m, offset0.0 as int, offset0.1 as int) by {
-            let rr = single_row(sb, p, nl, m) + (if m == 1 { 0 } else { offset0.0 as int });
-            let cc = single_col(sb, p, nl) + (if p == 1 { 0 } else { offset0.1 as int });
+            && single_in_sheet(sb, p, nl, m, offset.0 as int, offset.1 as int) implies
+            exists|nlo: int| #[trigger] single_translated(lowb(res@), nlo, sb, p, nl, m, offset.0 as int, offset.1 as int) by {
+            let rr = single_row(sb, p, nl, m) + (if m == 1 { 0 } else { offset.0 as int });
+            let cc = single_col(sb, p, nl) + (if p == 1 { 0 } else { offset.1 as int });
             assert(plain_ref(a1@, nl));
             assert(is_name_of(cn, rr, cc));
             let nlo = choose|nlo: int| name_of(cn, nlo, rr, cc);
@@ -626,8 +625,14 @@ pub mod ocr { use super::*;
             assert(abs_col == (p == 1) && col_end == p + nl && abs_row == (m == 1) && digits == nlo);
             assert(first == (if p == 1 { nm.subrange(0, 1 + nl) } else { as_chars(cn).subrange(0, nlo) }));
             assert(second == (if m == 1 { nm.subrange(p + nl, nm.len() as int) } else { as_chars(cn).subrange(nlo, cn.len() as int) }));
-            lemma_reference_translated(nm, p, nl, m, nd, cn, nlo, offset0.0 as int, offset0.1 as int, res@);
+            lemma_reference_translated(nm, p, nl, m, nd, cn, nlo, offset.0 as int, offset.1 as int, res@);
         }
+        // (hint: the view of the returned value)
+        let g: Result<Vec<char>, XlsxError> = Ok(res);
+        assert(g->Ok_0@ == res@);
+        assert(forall|p: int, nl: int, m: int, nd: int| all_ascii(name@) && #[trigger] single_ref(lowb(name@), p, nl, m, nd)
+            && single_in_sheet(lowb(name@), p, nl, m, offset.0 as int, offset.1 as int) ==>
+            g is Ok && exists|nlo: int| #[trigger] single_translated(lowb(g->Ok_0@), nlo, lowb(name@), p, nl, m, offset.0 as int, offset.1 as int));
     }
 //@@ end
 pub mod rcn { use super::*;
